@@ -181,6 +181,71 @@ func markDeep(x interface{}, k2 string, v interface{}) interface{} {
 	return x
 }
 
+// permanentInPlaceProbe: FuncAction.Exec around native code that works on the very map it is given
+// (what match.Bindings' Remove, Extend, DeleteExcept do) — "whatever the code deleted, overwrote or
+// returned instead", every '!' binding present beforehand is there afterwards with its previous value.
+func permanentInPlaceProbe(given map[string]interface{}) bool {
+	mutators := []func(b match.Bindings) match.Bindings{
+		func(b match.Bindings) match.Bindings { // delete every binding, hand the map back
+			for k := range b {
+				delete(b, k)
+			}
+			return b
+		},
+		func(b match.Bindings) match.Bindings { // overwrite every binding, hand the map back
+			for k := range b {
+				b[k] = "overwritten"
+			}
+			return b
+		},
+		func(b match.Bindings) match.Bindings { // overwrite in place, hand back something else
+			for k := range b {
+				b[k] = nil
+			}
+			return match.Bindings{"other": true}
+		},
+		func(b match.Bindings) match.Bindings { // the helper the package offers
+			return b.DeleteExcept("nothing")
+		},
+	}
+	for _, mut := range mutators {
+		bs := match.Bindings(gen.DeepCopy(given).(map[string]interface{}))
+		before := map[string]string{}
+		for k, v := range bs {
+			if strings.HasSuffix(k, "!") {
+				before[k] = gen.Canon(v)
+			}
+		}
+		mut := mut
+		a := &core.FuncAction{F: func(ctx context.Context, b match.Bindings, props core.StepProps) (*core.Execution, error) {
+			return core.NewExecution(mut(b)), nil
+		}}
+		ok := true
+		func() {
+			defer func() {
+				if r := recover(); r != nil {
+					ok = false
+				}
+			}()
+			exe, err := a.Exec(context.Background(), bs, nil)
+			if err != nil || exe == nil || exe.Bs == nil {
+				ok = false
+				return
+			}
+			for k, want := range before {
+				v, have := exe.Bs[k]
+				if !have || gen.Canon(v) != want {
+					ok = false
+				}
+			}
+		}()
+		if !ok {
+			return false
+		}
+	}
+	return true
+}
+
 // nativeAction compiles a program to a Go closure with the same meaning as Sheens/ES.lean Prog.run.
 func nativeAction(p *gen.Prog) *core.FuncAction {
 	return &core.FuncAction{F: func(ctx context.Context, given match.Bindings, props core.StepProps) (*core.Execution, error) {
@@ -495,6 +560,9 @@ func runOneWalk(op string, id int, c gen.WalkCase) (line walkLine) {
 		untouched = false
 	}
 	line.Probe = map[string]interface{}{"untouched": untouched, "fresh": fresh}
+	if c.Profile == "permanent" && c.St.Bs != nil {
+		line.Probe["permanentInPlace"] = permanentInPlaceProbe(c.St.Bs)
+	}
 	// a second, identical call must give an equal result (deterministic DSL actions)
 	if !c.Spec.HasLoop() {
 		st2 := stateOf(c.St)
